@@ -498,6 +498,9 @@ func init() {
 		z := x.coinsPred(st, "coins_iszero", c.T(0), func(a *Term) *Term { return Eq(a, IntLit(0)) }, true)
 		return And(nn, Not(z))
 	}
+	theory[pCoins+"IsAnyNegative"] = func(x *Exec, f *Frame, st *State, c *CallInfo) Val {
+		return Not(x.coinsPred(st, "coins_nonneg", c.T(0), func(a *Term) *Term { return Ge(a, IntLit(0)) }, true))
+	}
 	theory[pCoins+"Min"] = func(x *Exec, f *Frame, st *State, c *CallInfo) Val {
 		return x.pointwise(st, "coins_min", c.T(0), c.T(1), func(p, q *Term) *Term { return Ite(Le(p, q), p, q) })
 	}
